@@ -293,3 +293,258 @@ Proof.
   - rewrite bytes_cmp_antisym, enc_f64_mono by assumption.
     rewrite (f_val_lt_total b a Hb Ha G). reflexivity.
 Qed.
+
+(** * Integral doubles *)
+
+Lemma some_inj : forall (A : Type) (x y : A), Some x = Some y -> x = y.
+Proof. intros A x y H. congruence. Qed.
+
+Lemma f_int_mag_scaled : forall b mag,
+  f_int_mag b = Some mag -> f_mag_scaled b = mag * 2 ^ 1074.
+Proof.
+  intros b mag. unfold f_int_mag, f_mag_scaled.
+  generalize (f_exp b) as e. generalize (two52 + f_man b) as sig.
+  assert (Hm0 : forall m, m = 0 -> Some 0 = Some mag -> m = mag * 2 ^ 1074).
+  { intros m -> H. apply some_inj in H. subst mag. now rewrite N.mul_0_l. }
+  generalize (f_man b) as m.
+  intros m sig e.
+  destruct (N.eqb_spec e 2047) as [|Hfin]; [discriminate|].
+  destruct (N.eqb_spec e 0) as [E0|E0].
+  - destruct (N.eqb_spec m 0) as [Hm|]; [|discriminate]. now apply Hm0.
+  - destruct (N.leb_spec 1075 e) as [Hge|Hlt].
+    + intros H. apply some_inj in H. subst mag. rewrite !N.shiftl_mul_pow2.
+      assert (Hp : 2 ^ (e - 1) = 2 ^ (e - 1075) * 2 ^ 1074).
+      { rewrite <- (N.pow_add_r 2 (e - 1075) 1074). f_equal. lia. }
+      rewrite Hp. apply N.mul_assoc.
+    + rewrite N.land_ones.
+      assert (Hnz : 2 ^ (1075 - e) <> 0) by (apply N.pow_nonzero; lia).
+      destruct (N.eqb_spec (sig mod 2 ^ (1075 - e)) 0) as [Hz|]; [|discriminate].
+      intros H. apply some_inj in H. subst mag. rewrite N.shiftr_div_pow2, N.shiftl_mul_pow2.
+      apply N.div_exact in Hz; [|assumption].
+      set (q := sig / 2 ^ (1075 - e)) in *.
+      assert (Hp : 2 ^ 1074 = 2 ^ (1075 - e) * 2 ^ (e - 1)).
+      { rewrite <- (N.pow_add_r 2 (1075 - e) (e - 1)). f_equal. lia. }
+      rewrite Hp, Hz. rewrite (N.mul_comm (2 ^ (1075 - e)) q). apply eq_sym, N.mul_assoc.
+Qed.
+
+Lemma num_scale_eq : num_scale = Z.of_N (2 ^ 1074).
+Proof. unfold num_scale. rewrite N2Z.inj_pow. reflexivity. Qed.
+
+Lemma num_scale_pos : (0 < num_scale)%Z.
+Proof. unfold num_scale. apply Z.pow_pos_nonneg; lia. Qed.
+
+Lemma f_int_val : forall b mag, f_int_mag b = Some mag ->
+  f_val b = if f_sign b then (- (Z.of_N mag * num_scale))%Z else (Z.of_N mag * num_scale)%Z.
+Proof.
+  intros b mag H. unfold f_val. rewrite (f_int_mag_scaled b mag H), N2Z.inj_mul, <- num_scale_eq.
+  reflexivity.
+Qed.
+
+Global Opaque num_scale.
+
+(** comparing scaled integers *)
+Lemma scale_compare : forall x y, Z.compare (x * num_scale) (y * num_scale) = Z.compare x y.
+Proof.
+  intros x y. pose proof num_scale_pos as HS.
+  destruct (Z.compare_spec x y) as [->|H|H].
+  - apply Z.compare_refl.
+  - apply Z.compare_lt_iff. apply Z.mul_lt_mono_pos_r; assumption.
+  - apply Z.compare_gt_iff. apply Z.mul_lt_mono_pos_r; assumption.
+Qed.
+
+(** * Routing is exact outside saturation *)
+
+Lemma float_route_RI : forall b z, b < 2 ^ 64 -> f_is_nan b = false -> f_saturates b = false ->
+  float_route b = RI z -> f_val b = (z * num_scale)%Z /\ (- 2 ^ 63 <= z < 2 ^ 63)%Z.
+Proof.
+  intros b z Hb Hnan Hsat. unfold float_route, f_saturates in *.
+  destruct (f_is_finite b); [|discriminate].
+  destruct (f_int_mag b) as [mag|] eqn:Hm; [|discriminate].
+  pose proof (f_int_val b mag Hm) as Hv. unfold two63, two64 in *.
+  change (2 ^ 63) with 9223372036854775808 in *. change (2 ^ 64) with 18446744073709551616 in *.
+  destruct (N.leb_spec mag 9223372036854775808) as [Hle|Hgt].
+  - intros [= <-]. rewrite Hv. destruct (f_sign b); cbn [negb andb] in Hsat.
+    + split; [|lia]. now rewrite Z.mul_opp_l.
+    + assert (mag <> 9223372036854775808) by lia.
+      rewrite Z.min_l by lia. split; [reflexivity|lia].
+  - destruct (negb (f_sign b)); discriminate.
+Qed.
+
+Lemma float_route_RU : forall b n, b < 2 ^ 64 -> f_saturates b = false ->
+  float_route b = RU n -> f_val b = (Z.of_N n * num_scale)%Z /\ n < 2 ^ 64.
+Proof.
+  intros b n Hb Hsat. unfold float_route, f_saturates in *.
+  destruct (f_is_finite b); [|discriminate].
+  destruct (f_int_mag b) as [mag|] eqn:Hm; [|discriminate].
+  pose proof (f_int_val b mag Hm) as Hv. unfold two63, two64 in *.
+  change (2 ^ 63) with 9223372036854775808 in *. change (2 ^ 64) with 18446744073709551616 in *.
+  destruct (N.leb_spec mag 9223372036854775808) as [Hle|Hgt]; [discriminate|].
+  destruct (f_sign b); cbn [negb andb] in *; [discriminate|].
+  intros [= <-]. rewrite Hv.
+  assert (mag < 18446744073709551616) by lia.
+  rewrite N.min_l by lia. split; [reflexivity|assumption].
+Qed.
+
+Lemma float_route_RF : forall b b', float_route b = RF b' -> b' = b /\ f_mag_scaled b <> 0.
+Proof.
+  intros b b'. unfold float_route.
+  assert (Hinf : f_is_finite b = false -> f_mag_scaled b <> 0).
+  { unfold f_is_finite, f_mag_scaled. destruct (N.eqb_spec (f_exp b) 2047) as [->|]; [|discriminate].
+    intros _. cbn [N.eqb]. rewrite N.shiftl_mul_pow2. apply N.neq_mul_0. split.
+    - unfold two52. change (2 ^ 52) with 4503599627370496. lia.
+    - apply N.pow_nonzero. lia. }
+  destruct (f_is_finite b) eqn:Hfin.
+  - destruct (f_int_mag b) as [mag|] eqn:Hm.
+    + unfold two63. change (2 ^ 63) with 9223372036854775808.
+      destruct (N.leb_spec mag 9223372036854775808) as [Hle|Hgt]; [discriminate|].
+      destruct (negb (f_sign b)); [discriminate|].
+      intros [= <-]. split; [reflexivity|].
+      rewrite (f_int_mag_scaled b mag Hm). apply N.neq_mul_0. split; [lia|].
+      apply N.pow_nonzero. lia.
+    + intros [= <-]. split; [reflexivity|].
+      intros Hz. unfold f_int_mag in Hm. unfold f_mag_scaled in Hz. unfold f_is_finite in Hfin.
+      destruct (N.eqb_spec (f_exp b) 2047); [discriminate|].
+      destruct (N.eqb_spec (f_exp b) 0) as [E0|E0].
+      * rewrite Hz in Hm. discriminate.
+      * rewrite N.shiftl_mul_pow2 in Hz. apply N.eq_mul_0 in Hz as [Hz|Hz].
+        -- unfold two52 in Hz. change (2 ^ 52) with 4503599627370496 in Hz. lia.
+        -- revert Hz. apply N.pow_nonzero. lia.
+  - intros [= <-]. split; [reflexivity|]. now apply Hinf.
+Qed.
+
+Lemma float_route_cases : forall b, exists r, float_route b = r /\
+  match r with RI _ | RU _ | RF _ => True | _ => False end.
+Proof.
+  intros b. unfold float_route.
+  destruct (f_is_finite b); [|eexists; split; [reflexivity|exact I]].
+  destruct (f_int_mag b); [|eexists; split; [reflexivity|exact I]].
+  destruct (_ <=? _); [eexists; split; [reflexivity|exact I]|].
+  destruct (negb _); eexists; split; try reflexivity; exact I.
+Qed.
+
+(** integer parsers stay in range *)
+Lemma parse_i64_range : forall s z, parse_i64 s = Some z -> (- 2 ^ 63 <= z < 2 ^ 63)%Z.
+Proof.
+  intros s z. unfold parse_i64, two63. change (2 ^ 63) with 9223372036854775808.
+  destruct s as [|c r]; [discriminate|].
+  destruct (c =? 43).
+  - destruct (digits_nonempty r) as [n|]; [|discriminate].
+    destruct (N.ltb_spec n 9223372036854775808); [|discriminate]. intros [= <-]. lia.
+  - destruct (c =? 45).
+    + destruct (digits_nonempty r) as [n|]; [|discriminate].
+      destruct (N.leb_spec n 9223372036854775808); [|discriminate]. intros [= <-]. lia.
+    + destruct (digits_val (c :: r) 0) as [n|]; [|discriminate].
+      destruct (N.ltb_spec n 9223372036854775808); [|discriminate]. intros [= <-]. lia.
+Qed.
+
+Lemma parse_u64_range : forall s n, parse_u64 s = Some n -> n < 2 ^ 64.
+Proof.
+  intros s n. unfold parse_u64, two64.
+  destruct s as [|c r]; [discriminate|].
+  destruct (c =? 43).
+  - destruct (digits_nonempty r) as [m|]; [|discriminate].
+    destruct (N.ltb_spec m (2 ^ 64)); [|discriminate]. now intros [= <-].
+  - destruct (digits_val (c :: r) 0) as [m|]; [|discriminate].
+    destruct (N.ltb_spec m (2 ^ 64)); [|discriminate]. now intros [= <-].
+Qed.
+
+(** The lane coordinate of a value: which lane, and the number the key is the image of. *)
+Lemma f_num_some : forall b x, f_num b = Some x -> f_is_nan b = false /\ x = f_val b.
+Proof. intros b x. unfold f_num. destruct (f_is_nan b); [discriminate|]. now intros [= <-]. Qed.
+
+(** float part shared by [VFloat] and float-looking strings *)
+Lemma float_lane_exact : forall b x, b < 2 ^ 64 -> f_num b = Some x -> f_saturates b = false ->
+  match float_route b with
+  | RI z => x = (z * num_scale)%Z /\ (- 2 ^ 63 <= z < 2 ^ 63)%Z
+  | RU n => x = (Z.of_N n * num_scale)%Z /\ n < 2 ^ 64
+  | RF b' => b' = b /\ x = f_val b /\ f_mag_scaled b <> 0
+  | _ => False
+  end.
+Proof.
+  intros b x Hb Hn Hsat. apply f_num_some in Hn as [Hnan ->].
+  destruct (float_route b) as [z|n|b'| |] eqn:Hr.
+  - now apply float_route_RI.
+  - now apply float_route_RU.
+  - apply float_route_RF in Hr as [-> Hz]. auto.
+  - destruct (float_route_cases b) as (r & Hr' & Hc). rewrite Hr in Hr'. subst r. exact Hc.
+  - destruct (float_route_cases b) as (r & Hr' & Hc). rewrite Hr in Hr'. subst r. exact Hc.
+Qed.
+
+(** what [route_of], [num_of] and [saturates] say about a well-formed numeric value.
+    (Hypotheses are taken apart with explicit lemmas rather than [cbn in]: the kernel's
+    conversion heuristics are poor on [N.ltb _ (2^64)] against a folded constant.) *)
+Lemma wf_float_lt : forall b, sval_wf (VFloat b) = true -> b < 2 ^ 64.
+Proof. intros b H. apply N.ltb_lt in H. exact H. Qed.
+Lemma wf_str_lt : forall s f, sval_wf (VStr s (Some f)) = true -> f < 2 ^ 64.
+Proof. intros s f H. apply N.ltb_lt in H. exact H. Qed.
+Lemma wf_int_range : forall z, i64_ok z = true -> (- 2 ^ 63 <= z < 2 ^ 63)%Z.
+Proof.
+  intros z H. apply andb_prop in H as [H1 H2]. apply Z.leb_le in H1. apply Z.ltb_lt in H2. split; assumption.
+Qed.
+Lemma sat_float : forall b, saturates (VFloat b) = f_saturates b.
+Proof. reflexivity. Qed.
+
+Lemma lane_exact : forall v x, sval_wf v = true -> num_of v = Some x -> saturates v = false ->
+  match route_of v with
+  | RI z => x = (z * num_scale)%Z /\ (- 2 ^ 63 <= z < 2 ^ 63)%Z
+  | RU n => x = (Z.of_N n * num_scale)%Z /\ n < 2 ^ 64
+  | RF b => x = f_val b /\ f_mag_scaled b <> 0 /\ b < 2 ^ 64
+  | _ => False
+  end.
+Proof.
+  intros v x Hwf Hn Hsat. destruct v as [|bb|z|z|b|s h|].
+  - discriminate Hn.
+  - discriminate Hn.
+  - apply some_inj in Hn. subst x. split; [reflexivity|]. now apply wf_int_range.
+  - apply some_inj in Hn. subst x. split; [reflexivity|]. now apply wf_int_range.
+  - pose proof (wf_float_lt b Hwf) as Hb.
+    pose proof (float_lane_exact b x Hb Hn Hsat) as H.
+    change (route_of (VFloat b)) with (float_route b).
+    destruct (float_route b); try exact H. destruct H as (-> & H1 & H2). auto.
+  - unfold saturates, float_of in Hsat. unfold num_of in Hn. unfold route_of.
+    destruct (parse_i64 s) as [i|] eqn:Hi.
+    + apply some_inj in Hn. subst x. split; [reflexivity|]. now apply parse_i64_range in Hi.
+    + destruct (parse_u64 s) as [u|] eqn:Hu.
+      * apply some_inj in Hn. subst x. split; [reflexivity|]. now apply parse_u64_range in Hu.
+      * destruct h as [f|]; [|discriminate Hn].
+        pose proof (wf_str_lt s f Hwf) as Hb.
+        pose proof (float_lane_exact f x Hb Hn Hsat) as H.
+        destruct (float_route f); try exact H. destruct H as (-> & H1 & H2). auto.
+  - discriminate Hn.
+Qed.
+
+(** ** Same lane => keys are 8 bytes and compare exactly as the numbers *)
+Theorem same_lane_key_order : forall v p l,
+  sval_wf v = true -> sval_wf p = true ->
+  saturates v = false -> saturates p = false ->
+  lane_of v = Some l -> lane_of p = Some l ->
+  exists kv kp a b,
+    encode_value v = Some kv /\ encode_value p = Some kp /\
+    num_of v = Some a /\ num_of p = Some b /\
+    length kv = 8%nat /\ length kp = 8%nat /\
+    bytes_cmp kv kp = Z.compare a b.
+Proof.
+  intros v p l Wv Wp Sv Sp Lv Lp. unfold lane_of in Lv, Lp.
+  destruct (num_of v) as [a|] eqn:Na; [|discriminate].
+  destruct (num_of p) as [b|] eqn:Nb; [|discriminate].
+  pose proof (lane_exact v a Wv Na Sv) as Ev. pose proof (lane_exact p b Wp Nb Sp) as Ep.
+  unfold encode_value.
+  destruct (route_of v) as [zv|nv|bv| |]; try discriminate;
+    destruct (route_of p) as [zp|np|bp| |]; try discriminate;
+    injection Lv as <-; try discriminate; clear Lp; cbn [enc_route].
+  - destruct Ev as (-> & Rv). destruct Ep as (-> & Rp).
+    exists (enc_i64 zv), (enc_i64 zp), (zv * num_scale)%Z, (zp * num_scale)%Z.
+    repeat split; try reflexivity. rewrite scale_compare. now apply enc_i64_mono.
+  - destruct Ev as (-> & Rv). destruct Ep as (-> & Rp).
+    exists (enc_u64 nv), (enc_u64 np), (Z.of_N nv * num_scale)%Z, (Z.of_N np * num_scale)%Z.
+    repeat split; try reflexivity. rewrite scale_compare, enc_u64_mono by assumption.
+    now rewrite N2Z.inj_compare.
+  - destruct Ev as (-> & Zv & Bv). destruct Ep as (-> & Zp & Bp).
+    exists (enc_f64 bv), (enc_f64 bp), (f_val bv), (f_val bp).
+    repeat split; try reflexivity. now apply enc_f64_value_order.
+Qed.
+
+(** every numeric route yields an 8-byte key *)
+Lemma enc_route_len8 : forall r k, enc_route r = Some k ->
+  match r with RI _ | RU _ | RF _ => length k = 8%nat | _ => True end.
+Proof. intros [z|n|b|raw|] k H; cbn [enc_route] in H; try exact I; now injection H as <-. Qed.
